@@ -222,8 +222,7 @@ def process_pyro_request(environ, path, parameters, start_response):
         return not_found(start_response)
     if pyro_app.gateway_key:
         gateway_key = environ.get("HTTP_X_PYRO_GATEWAY_KEY", "") or parameters.get("$key", "")
-        gateway_key = gateway_key.encode("utf-8")
-        if gateway_key != pyro_app.gateway_key:
+        if not isinstance(gateway_key, str) or gateway_key.encode("utf-8") != pyro_app.gateway_key:     # ($key given more than once is a list)
             start_response('403 Forbidden', cors_response_header([('Content-Type', 'text/plain')], pyro_app.cors))
             return [b"403 Forbidden - incorrect gateway api key"]
         if "$key" in parameters:
